@@ -72,6 +72,8 @@ pub async fn broker(
         match request {
             DocumentRequest::Open(uri, text) => {
                 let doc = AnalyzedSource::new(text);
+                #[cfg(feature = "verif")]
+                crate::verif::doc_updated(&uri, &doc);
                 if send_diagnostics {
                     notify(iotx.clone(), uri.clone(), &doc).await;
                 }
@@ -84,6 +86,8 @@ pub async fn broker(
                         let doc = entry.get().clone();
                         let text_changes = to_text_changes(changes, doc.text.clone());
                         let new_doc = doc.update(text_changes);
+                        #[cfg(feature = "verif")]
+                        crate::verif::doc_updated(&uri, &new_doc);
                         if send_diagnostics {
                             notify(iotx.clone(), uri.clone(), &new_doc).await;
                         }
